@@ -9,6 +9,7 @@ CONSTANTS
   MaxFaults = 2
   D_RenameAfterFailedStep = FALSE
   D_NoFsync = FALSE
+  M_ZeroOffsetsWritten = TRUE
   MidSaveCommits = TRUE
   CrashAction = TRUE
   DoExport = TRUE
